@@ -38,7 +38,7 @@ func Check() *common.Check {
 				if i := strings.Index(name, "/"); i > 0 {
 					sec = name[:i]
 				}
-				layouts := []int{sqlgen.LNatural, sqlgen.LSpaced, sqlgen.LLines, sqlgen.LComments}
+				layouts := []int{sqlgen.LNatural, sqlgen.LSpaced, sqlgen.LLines, sqlgen.LComments, sqlgen.LComments2}
 				if sec == "shape3" || sec == "shape4" || sec == "nest2" {
 					layouts = []int{sqlgen.LNatural, sqlgen.LLines}
 				}
@@ -53,7 +53,7 @@ func Check() *common.Check {
 						want = sqlgen.DumpNorm([]any{s.N})
 					}
 					feat := s.Feat
-					if l == sqlgen.LLines || l == sqlgen.LComments {
+					if l == sqlgen.LLines || l == sqlgen.LComments || l == sqlgen.LComments2 {
 						// keyword letter case differs from the canonical upper case: name each keyword
 						feat = append([]string{}, s.Feat...)
 						seen := map[string]bool{}
